@@ -3504,6 +3504,17 @@ evhttp_response_code_(struct evhttp_request *req, int code, const char *reason)
 	req->response_code = code;
 	if (req->response_code_line != NULL)
 		mm_free(req->response_code_line);
+	if (reason != NULL) {
+		/* reason-phrase = 1*( HTAB / SP / VCHAR / obs-text ): a CR or LF
+		 * in it would start a header field (or a message) of its own */
+		const unsigned char *cp;
+		for (cp = (const unsigned char *)reason; *cp != '\0'; ++cp) {
+			if ((*cp < ' ' && *cp != '\t') || *cp == 0x7f) {
+				reason = NULL;
+				break;
+			}
+		}
+	}
 	if (reason == NULL)
 		reason = evhttp_response_phrase_internal(code);
 	req->response_code_line = mm_strdup(reason);
